@@ -30,6 +30,7 @@ REQUIRED_COUNTERS = [
     "calls", "calls.accepted", "calls.rejected", "snapshots.compared", "repeat.compared", "trees.dsl",
     "trees.parsed", "shape.explicit_required", "shape.renamed_property", "shape.inherited_class",
     "shape.shared_node", "result_mutated_then_repeated", "twin.equal_after", "history.long",
+    "fresh_twin.verdicts_compared", "history.other_classes_used_first", "trees.root_is_subclass",
 ]
 
 
@@ -91,8 +92,30 @@ def mutate_result(result):
     return False
 
 
+def tree_classes(sut, element):
+    """Every model class of the tree, including base classes that are only reachable as bases."""
+    try:
+        found = [c for c in [element] + list(sut.get_children(element)) if isinstance(c, sut.ObjectMeta)]
+    except Exception:  # pylint: disable=broad-except
+        found = [element] if isinstance(element, sut.ObjectMeta) else []
+    out = {}
+    for cls in found:
+        for base in cls.__mro__:
+            if isinstance(base, sut.ObjectMeta) and base is not sut.Object:
+                out[id(base)] = base
+    return list(out.values())
+
+
 def run_history(ctx, sut, monitors, fpm, element, twin_builder, values, case, f25_possible):
     before = monitors.PuritySnapshot(element)
+    others = [cls for cls in tree_classes(sut, element) if cls is not element]
+    if others:
+        # use the other classes of the tree first (a parent before its child, a nested class before its
+        # owner): whatever they leave behind must not influence the element under observation
+        ctx.count("history.other_classes_used_first")
+        for cls in others:
+            for value in values[:3]:
+                sut.call(cls, copy.deepcopy(value) if not isinstance(value, sut.NotPassed) else value)
     first_seen = {}
     accepted = rejected = 0
     last_fp = before.fp
@@ -165,6 +188,21 @@ def run_history(ctx, sut, monitors, fpm, element, twin_builder, values, case, f2
     try:
         twin = twin_builder()
         equal = element == twin
+        # repeatable also means: what a used tree says, a fresh equal tree says too
+        for value in values[:8]:
+            if isinstance(value, sut.NotPassed):
+                continue
+            used_out, used_res, _ = sut.call(element, copy.deepcopy(value))
+            fresh_out, fresh_res, _ = sut.call(twin, copy.deepcopy(value))
+            ctx.count("fresh_twin.verdicts_compared")
+            same = sut.accepted(used_out) == sut.accepted(fresh_out) and (
+                used_out != "ok" or fpm.fp_result(used_res) == fpm.fp_result(fresh_res))
+            if not same:
+                finding = "F25" if f25_possible else None
+                ctx.witness("used_tree_differs_from_fresh_tree", {**case, "value": value},
+                            f"after the history the tree gives {used_out} but an independently built copy "
+                            f"gives {fresh_out} (or a different result)", finding=finding)
+                break
     except Exception as err:  # pylint: disable=broad-except
         equal = None
         ctx.count("twin.build_failed." + type(err).__name__)
@@ -196,8 +234,13 @@ def run_shard(ctx):
             ctx.count("history.long")
         if idx % 3 != 2:
             gen = gen_dsl.Gen(rng, shared_props=0.5 if idx % 12 == 0 else 0.0,
-                              explicit_required=0.5, renames=0.4)
-            spec = gen.spec() if idx % 2 else gen.klass(gen.max_depth)
+                              explicit_required=0.5, renames=0.4, inheritance=0.4,
+                              pattern_overlap=0.6 if idx % 4 == 1 else 0.0)
+            if idx % 5 == 0:
+                spec = gen.family(2, levels=rng.choice([2, 2, 3]))
+                ctx.count("trees.root_is_subclass")
+            else:
+                spec = gen.spec() if idx % 2 else gen.klass(gen.max_depth)
             schema = gen_dsl.to_schema(spec)
             try:
                 element = gen_dsl.build(spec)
